@@ -22,6 +22,7 @@ open LoomVerif
 #print axioms Race2.Example.ntf_runs
 #print axioms Race2.Example.cvp_never
 #print axioms Race2.Example.cvp_run3
-#print axioms Race2.Finding.missed_race
-#print axioms Race2.Finding.missed_race_exec
-#print axioms Race2.Finding.default_exploration_reports
+#print axioms Race2.Repaired.two_notifiers_race_reported
+#print axioms Race2.Repaired.two_notifiers_reference_race
+#print axioms Race2.Repaired.two_notifiers_report_is_real
+#print axioms Race2.Repaired.default_exploration_reports
